@@ -2,15 +2,17 @@
 (* C19, controller-bound half: one controller-bound ClusterAdmin operation
    (CreateTopic / DeleteTopic / CreatePartitions / AlterPartitionReassignments,
    admin.go 196-522) as a state machine, together with its environment
-   (the controller may step down and another broker takes over; the controller
-   acknowledges, refuses with an error code, answers without the topic entry, or
+   (the controller may step down and another broker takes over, at once or after an
+   election during which metadata names no controller; the controller acknowledges, refuses with an error code, answers without the topic entry, or
    drops the connection).
 
    The model is implementation-shaped: one action per step of
    clusterAdmin.retryOnError (admin.go 180-194) and of the closure it runs:
 
      LoopCheck   `for attempt := 0; attempt < ca.conf.Admin.Retry.Max; attempt++`
-     (send)      `b, err := ca.Controller()` - the cached controller - and b.<Request>
+     Lookup      `b, err := ca.Controller()` - the cached controller, else one metadata refresh
+                 (which may name nobody while an election is in progress: local error)
+     (send)      b.<Request>
      Answer      the environment: what the receiving broker does with the request
      Handle      the response handling of the operation, including
                  `ca.refreshController()` on NOT_CONTROLLER and the return value
@@ -41,19 +43,26 @@ CONSTANTS Brokers,      \* broker ids
           InitCtls,     \* possible controllers when the client is created
           ErrCodes,     \* error codes a controller may answer instead of success
           Kvs,          \* op -> set of Kafka release indexes (AdminOracle) the op is run with
+          Pres,         \* what the client knows when the operation starts: "cached" (the controller),
+                        \* "empty" (a refresh during an election wiped it; metadata names it again),
+                        \* "none" (wiped, and the next metadata answer still names no controller)
+          NoneKs,       \* after a step-down the next k metadata answers name NO controller (-1), k in NoneKs
+                        \* (at most once per operation); {} = metadata always names the controller
           Budget, AlterQuirks, NoRefresh,
           Src,          \* tag of the cfg that emitted a case ("ref": pred is what the code in /repo should do)
           EmitCases
 
-VARIABLES op, kv, max, init,      \* the case (chosen in Init)
+VARIABLES op, kv, max, init, pre, \* the case (chosen in Init)
           ctl,                    \* true controller
-          cached,                 \* client.controllerID as the admin sees it
+          cached,                 \* client.controllerID as the admin sees it (NoCtl: brokers[controllerID] = nil)
+          noneLeft, usedNone,     \* environment: metadata answers still to come that name no controller
           pc, attempt, lastErr,   \* retryOnError: control state, loop counter, `err`
           pending,                \* the answer travelling back to the admin
           script,                 \* history: what the environment did at each request
-          att, res                \* history: requests as seen by the brokers; returned value
+          att, metas, res         \* history: requests as seen by the brokers; controller named by the metadata
+                                  \* answers since the last request; returned value
 
-vars == <<op, kv, max, init, ctl, cached, pc, attempt, lastErr, pending, script, att, res>>
+vars == <<op, kv, max, init, pre, ctl, cached, noneLeft, usedNone, pc, attempt, lastErr, pending, script, att, metas, res>>
 
 Nil == [cls |-> "nil", code |-> 0]
 NoAns == [ans |-> "-", code |-> 0, place |-> "-"]
@@ -64,9 +73,11 @@ KvQuick == [CreateTopic |-> {1, 2, 3, 5}, DeleteTopic |-> {1, 2, 5}, CreateParti
 KvFull == [CreateTopic |-> {0, 1, 2, 3, 4, 5}, DeleteTopic |-> {0, 1, 2, 3, 4, 5}, CreatePartitions |-> {3, 4, 5},
            AlterPartitionReassignments |-> {5}]
 ErrQuick == {-1, 7, 36}
+ErrOne == {36}
 ErrThorough == {-1, 7, 29, 36, 37}
 ErrAll == (-1..88) \ {0, NotController}      \* every code of errors.go "in place of success"
 KvOne == [CreateTopic |-> {3}, DeleteTopic |-> {2}, CreatePartitions |-> {3}, AlterPartitionReassignments |-> {5}]
+NoNone == {}
 
 \* version selection of admin.go (lines 214-219, 404-406; the other two always send v0)
 ReqVersion(o, k) ==
@@ -82,68 +93,94 @@ Init ==
   /\ kv \in Kvs[op]
   /\ max \in 0..MaxRetry
   /\ init \in InitCtls
-  /\ ctl = init /\ cached = init
+  /\ pre \in Pres
+  /\ ctl = init
+  /\ cached = (IF pre = "cached" THEN init ELSE NoCtl)
+  /\ noneLeft = (IF pre = "none" THEN 1 ELSE 0) /\ usedNone = FALSE
   /\ pc = "loop" /\ attempt = 0 /\ lastErr = Nil /\ pending = NoAns
-  /\ script = <<>> /\ att = <<>> /\ res = [cls |-> "-", code |-> 0]
+  /\ script = <<>> /\ att = <<>> /\ metas = <<>> /\ res = [cls |-> "-", code |-> 0]
+
+\* one metadata request (client.refreshMetadata -> updateMetadata): the answer names the true
+\* controller, or nobody while an election is in progress
+Served == IF noneLeft > 0 THEN NoCtl ELSE ctl
+Fetch ==
+  /\ cached' = Served
+  /\ metas' = Append(metas, Served)
+  /\ noneLeft' = (IF noneLeft > 0 THEN noneLeft - 1 ELSE 0)
 
 LoopCheck ==
   /\ pc = "loop"
   /\ IF attempt < Limit
-     THEN pc' = "send" /\ UNCHANGED res
+     THEN pc' = "lookup" /\ UNCHANGED res
      ELSE pc' = "done" /\ res' = lastErr       \* `return err` after the loop
-  /\ UNCHANGED <<op, kv, max, init, ctl, cached, attempt, lastErr, pending, script, att>>
+  /\ UNCHANGED <<op, kv, max, init, pre, ctl, cached, noneLeft, usedNone, attempt, lastErr, pending, script, att, metas>>
+
+Return(r) == pc' = "done" /\ res' = r /\ UNCHANGED <<attempt, lastErr>>
+
+\* `b, err := ca.Controller()` (client.go Controller): the cached controller, else one metadata
+\* refresh; still nobody => ErrControllerNotAvailable, which the closure returns and
+\* isErrNoController does not recognise: the operation ends with that local error
+Lookup ==
+  /\ pc = "lookup"
+  /\ UNCHANGED <<op, kv, max, init, pre, ctl, usedNone, pending, script, att>>
+  /\ IF cached # NoCtl
+     THEN pc' = "send" /\ UNCHANGED <<cached, metas, noneLeft, attempt, lastErr, res>>
+     ELSE /\ Fetch
+          /\ IF Served # NoCtl
+             THEN pc' = "send" /\ UNCHANGED <<attempt, lastErr, res>>
+             ELSE Return([cls |-> "nocontroller", code |-> 0])
 
 \* the environment: the request reaches broker `cached`
-Observe(ans, code, place, newctl) ==
+Observe(ans, code, place, newctl, k) ==
   /\ att' = Append(att, [b |-> cached, ctl |-> ctl, after |-> newctl, api |-> ApiOf[op], v |-> ReqVersion(op, kv),
                          ans |-> ans, code |-> code])
+  /\ script' = Append(script, <<ans, (IF ans = "nc" THEN newctl ELSE code), place, k>>)
   /\ pending' = [ans |-> ans, code |-> code, place |-> place]
   /\ ctl' = newctl
+  /\ noneLeft' = (IF k > 0 THEN k ELSE noneLeft) /\ usedNone' = (usedNone \/ k > 0)
+  /\ metas' = <<>>
   /\ pc' = "resp"
-  /\ UNCHANGED <<op, kv, max, init, cached, attempt, lastErr, res>>
+  /\ UNCHANGED <<op, kv, max, init, pre, cached, attempt, lastErr, res>>
 
 Answer ==
   /\ pc = "send"
   /\ IF cached # ctl
      THEN \* a broker that is not the controller can only refuse
-          /\ script' = Append(script, <<"nc", ctl, "-">>)
-          /\ Observe("nc", NotController, "-", ctl)
-     ELSE \/ /\ script' = Append(script, <<"ack", 0, "-">>)
-             /\ Observe("ack", 0, "-", ctl)
+          Observe("nc", NotController, "-", ctl, 0)
+     ELSE \/ Observe("ack", 0, "-", ctl, 0)
           \/ \E c \in ErrCodes, pl \in (IF op = "AlterPartitionReassignments" THEN {"top", "part"} ELSE {"-"}) :
-             /\ script' = Append(script, <<"err", c, pl>>)
-             /\ Observe("err", c, pl, ctl)
+             Observe("err", c, pl, ctl, 0)
           \/ /\ op # "AlterPartitionReassignments"      \* its response has no per-topic presence to miss
-             /\ script' = Append(script, <<"inc", 0, "-">>)
-             /\ Observe("inc", 0, "-", ctl)
-          \/ /\ script' = Append(script, <<"conn", 0, "-">>)
-             /\ Observe("conn", 0, "-", ctl)
-          \/ \E b \in Brokers \ {cached} :               \* the controller stepped down, b took over
-             /\ script' = Append(script, <<"nc", b, "-">>)
-             /\ Observe("nc", NotController, "-", b)
-
-Return(r) == pc' = "done" /\ res' = r /\ UNCHANGED <<cached, attempt, lastErr>>
+             /\ Observe("inc", 0, "-", ctl, 0)
+          \/ Observe("conn", 0, "-", ctl, 0)
+          \/ \E b \in Brokers \ {cached}, k \in ({0} \cup (IF usedNone THEN {} ELSE NoneKs)) :
+             \* the controller stepped down, b takes over - at once (k = 0) or after an election
+             \* during which k metadata answers name nobody
+             Observe("nc", NotController, "-", b, k)
 
 Handle ==
   /\ pc = "resp"
   /\ pending' = NoAns
-  /\ UNCHANGED <<op, kv, max, init, ctl, script, att>>
-  /\ CASE pending.ans = "ack" -> Return(Nil)
+  /\ UNCHANGED <<op, kv, max, init, pre, ctl, usedNone, script, att>>
+  /\ CASE pending.ans = "ack" -> Return(Nil) /\ UNCHANGED <<cached, metas, noneLeft>>
        [] pending.ans = "conn" ->
-            IF op = "AlterPartitionReassignments"
-            THEN Return([cls |-> "agg", code |-> 0])               \* `errs = append(errs, err)`: wrapped
-            ELSE Return([cls |-> "other", code |-> 0])
-       [] pending.ans = "inc" -> Return([cls |-> "incomplete", code |-> 0])
+            /\ UNCHANGED <<cached, metas, noneLeft>>
+            /\ IF op = "AlterPartitionReassignments"
+               THEN Return([cls |-> "agg", code |-> 0])               \* `errs = append(errs, err)`: wrapped
+               ELSE Return([cls |-> "other", code |-> 0])
+       [] pending.ans = "inc" -> Return([cls |-> "incomplete", code |-> 0]) /\ UNCHANGED <<cached, metas, noneLeft>>
        [] pending.ans = "err" ->
-            IF op = "AlterPartitionReassignments"
-            THEN IF AlterQuirks /\ pending.place = "top" /\ pending.code <= 0
-                 THEN Return(Nil)                                   \* `if rsp.ErrorCode > 0`
-                 ELSE Return([cls |-> "agg", code |-> 0])
-            ELSE Return([cls |-> TypedClsOf(op), code |-> pending.code])
+            /\ UNCHANGED <<cached, metas, noneLeft>>
+            /\ IF op = "AlterPartitionReassignments"
+               THEN IF AlterQuirks /\ pending.place = "top" /\ pending.code <= 0
+                    THEN Return(Nil)                                   \* `if rsp.ErrorCode > 0`
+                    ELSE Return([cls |-> "agg", code |-> 0])
+               ELSE Return([cls |-> TypedClsOf(op), code |-> pending.code])
        [] pending.ans = "nc" ->
             IF op = "AlterPartitionReassignments" /\ AlterQuirks
-            THEN Return([cls |-> "agg", code |-> 0])               \* wrapped: not retryable, no refresh
-            ELSE /\ cached' = IF NoRefresh THEN cached ELSE ctl     \* ca.refreshController()
+            THEN Return([cls |-> "agg", code |-> 0]) /\ UNCHANGED <<cached, metas, noneLeft>>  \* wrapped: not retryable, no refresh
+            ELSE \* `_, _ = ca.refreshController()`: one metadata refresh, its outcome ignored
+                 /\ IF NoRefresh THEN UNCHANGED <<cached, metas, noneLeft>> ELSE Fetch
                  /\ lastErr' = [cls |-> (IF op = "AlterPartitionReassignments" THEN "kerr" ELSE TypedClsOf(op)),
                                  code |-> NotController]
                  /\ pc' = "backoff"
@@ -153,22 +190,22 @@ Backoff ==
   /\ pc = "backoff"
   /\ attempt' = attempt + 1
   /\ pc' = "loop"
-  /\ UNCHANGED <<op, kv, max, init, ctl, cached, lastErr, pending, script, att, res>>
+  /\ UNCHANGED <<op, kv, max, init, pre, ctl, cached, noneLeft, usedNone, lastErr, pending, script, att, metas, res>>
 
-Next == LoopCheck \/ Answer \/ Handle \/ Backoff
+Next == LoopCheck \/ Lookup \/ Answer \/ Handle \/ Backoff
 Spec == Init /\ [][Next]_vars
 
 -----------------------------------------------------------------------------
-Case == [op |-> op, kv |-> kv, max |-> max, init |-> init, script |-> script]
+Case == [op |-> op, kv |-> kv, max |-> max, init |-> init, pre |-> pre, script |-> script]
 
 TypeOK ==
-  /\ pc \in {"loop", "send", "resp", "backoff", "done"}
+  /\ pc \in {"loop", "lookup", "send", "resp", "backoff", "done"}
   /\ attempt \in 0..(MaxRetry + 1) /\ Len(att) = Len(script) /\ Len(att) <= MaxRetry + 1
-  /\ ctl \in Brokers /\ cached \in Brokers
+  /\ ctl \in Brokers /\ cached \in Brokers \cup {NoCtl} /\ noneLeft \in 0..2
 
 \* the clauses, on every reachable state
 ReqClauses == att # <<>> => CtlReqViol(Case, att) = {}
-RetViolNow == IF pc = "done" THEN CtlRetViol(Case, att, res) ELSE {}
+RetViolNow == IF pc = "done" THEN CtlRetViol(Case, att, res, metas) ELSE {}
 RetClauses == RetViolNow = {}
 
 (* What the pinned tree got wrong before the fix: commits, by cause (the signatures of the
@@ -186,6 +223,7 @@ RetClausesOrKnownQuirk == RetViolNow \subseteq KnownQuirk
 \* pred = what this model says the code does (compared softly: drift, never a verdict)
 Emit ==
   (EmitCases /\ pc = "done") =>
-     PrintT(<<"CASE", ToJson([fam |-> "ctl", src |-> Src, op |-> op, kv |-> kv, max |-> max, init |-> init, script |-> script,
+     PrintT(<<"CASE", ToJson([fam |-> "ctl", src |-> Src, op |-> op, kv |-> kv, max |-> max, init |-> init, pre |-> pre,
+                              script |-> script,
                               pred |-> [att |-> Len(att), cls |-> res.cls, code |-> res.code]])>>)
 =============================================================================
